@@ -15,7 +15,9 @@ import tlc
 from props.c12 import decode_html
 from props.engine_common import plain
 
-XFORM_LINE = 'field.description = regex_replace(field.description, "^APLPAY\\\\s+", "")\n'
+# two transforms: the first cannot be evaluated for any of these statements (no {memo} column) and is skipped ON ITS OWN
+XFORM_LINE = ('field.memo = trim(field.memo)\n'
+              'field.description = regex_replace(field.description, "^APLPAY\\\\s+", "")\n')
 RULES_TEXT = '''# budget rules
 [Wallet]
 match: startswith("APLPAY")
@@ -103,6 +105,8 @@ def materialise_budget(root, b, rnd):
         if delim != ',':
             lines.append('    delimiter: "%s"' % delim)
         srcs.append('\n'.join(lines))
+        if s['status'] == 'unreadable':
+            files[fn + '/'] = None              # the configured path exists, but it is a directory
         if s['status'] == 'present':
             import csv as _csv
             files[fn] = RC.render(table_for(s['layout'], b.get('split', False)), s['layout'], s['dec'], delim, s['header'], _csv.QUOTE_MINIMAL, '\n')
@@ -214,6 +218,8 @@ def run_budget(b, rep, seed, want_json=False):
         for s in b['sources']:
             if s['status'] == 'missing' and ('%s: File not found' % s['name']) not in r['out']:
                 diffs.append(('missing-source-not-reported', 'source %s is missing but the output does not say so' % s['name']))
+            if s['status'] == 'unreadable' and ('%s: Error' % s['name']) not in r['out']:
+                diffs.append(('unreadable-source-not-reported', 'source %s cannot be read but the output does not say so' % s['name']))
         cfg = rep.get('cfg')
         if cfg:
             if data.get('year') != cfg['year'] or ('Tally - %d' % cfg['year']) not in r['out']:
